@@ -213,3 +213,21 @@ void h_limits(void)
   VERIF_CANARY;
 }
 #endif
+
+/* ------------------------------------------------------------------------------------------------
+ * NudgingShiftSegment::fixedOrder(bool& isFixed): CmpLineOrder passes ONE flag to the calls for both segments, so the flag must come out
+ * as (flag on entry) OR (this segment is fixed / limited on both sides); the return value ranks a one-sidedly limited segment. */
+#if defined(JOB_fixedOrder)
+int w_fixedOrder(unsigned long dim, double pos, double minLim, double maxLim, int fixed, double nd, int *isFixed);
+void h_fixedOrder(void)
+{
+  unsigned long dim; double pos, lo, hi, nd; int fixed, in, flag;
+  __CPROVER_assume(dim <= 1 && (fixed == 0 || fixed == 1) && (in == 0 || in == 1) && !IS_NAN(pos) && !IS_NAN(lo) && !IS_NAN(hi) && !IS_NAN(nd));
+  flag = in;
+  int r = w_fixedOrder(dim, pos, lo, hi, fixed, nd, &flag);
+  _Bool minLimited = (pos - lo) < nd, maxLimited = (hi - pos) < nd, eff = fixed || (minLimited && maxLimited);
+  __CPROVER_assert((flag != 0) == (in != 0 || eff), "SPEC fixedOrder only ever SETS its out-parameter: afterwards it is (value on entry) OR (this segment is effectively fixed)");
+  __CPROVER_assert(r == (eff ? 0 : minLimited ? 1 : maxLimited ? -1 : 0), "SPEC fixedOrder ranks a segment limited on its low side after, on its high side before, the others");
+  VERIF_CANARY;
+}
+#endif
